@@ -391,6 +391,7 @@ type monitor struct {
 	readAt       map[[2]uint64]uint64 // ctx -> max commit when requested (C06)
 	kinds        map[uint64]byte      // C18
 	prevRole     map[uint64]uint64    // C18
+	votingSeen   map[uint64]map[uint64]bool // C18: peers a replica saw as voting since its last Update
 	prevCommit   map[uint64]uint64    // C02: commit index of a leader at its previous operation
 	viol         []string
 	elections    int
@@ -418,12 +419,35 @@ func entSig(e pb.Entry) string {
 }
 
 func (mo *monitor) observe(c *raftsim.Cluster, op string, res raftsim.Result) {
+	defer func() {
+		if strings.HasPrefix(op, "U ") && res.Node != nil && mo.votingSeen != nil {
+			// a new interval starts with the sender's current view
+			cur := map[uint64]bool{}
+			for _, rm := range raftsim.Inspect(res.Node).Remotes {
+				if rm.Kind == 0 || rm.Kind == 2 {
+					cur[rm.ID] = true
+				}
+			}
+			mo.votingSeen[res.Node.ID] = cur
+		}
+	}()
 	n := res.Node
 	if n == nil || res.Panicked {
 		return
 	}
 	f := strings.Fields(op)
 	st := raftsim.Inspect(n)
+	if mo.votingSeen == nil {
+		mo.votingSeen = map[uint64]map[uint64]bool{}
+	}
+	if mo.votingSeen[n.ID] == nil {
+		mo.votingSeen[n.ID] = map[uint64]bool{}
+	}
+	for _, rm := range st.Remotes {
+		if rm.Kind == 0 || rm.Kind == 2 {
+			mo.votingSeen[n.ID][rm.ID] = true
+		}
+	}
 	switch f[0] {
 	case "START":
 		mo.kinds[n.ID] = n.Kind
@@ -661,7 +685,9 @@ func (mo *monitor) observe(c *raftsim.Cluster, op string, res raftsim.Result) {
 			}
 			// --- C18: ReadIndex hints go to voting members only
 			if m.Type == pb.Heartbeat && m.Hint != 0 {
-				if tn, ok := c.Nodes[m.To]; ok && tn.Kind == 'N' && !n.Mem.Voters[m.To] {
+				// (the message may have been created before a membership change that the sender applied
+				// before this Update was taken: judged by every view the sender held since its last Update)
+				if tn, ok := c.Nodes[m.To]; ok && tn.Kind == 'N' && !n.Mem.Voters[m.To] && !mo.votingSeen[n.ID][m.To] {
 					if st2 := raftsim.Inspect(n); !isVotingPeer(st2, m.To) {
 						mo.v("C18", "read confirmation hint sent to non-voting replica %d", m.To)
 					}
